@@ -63,6 +63,12 @@ func numLeaf(r *Rng, key string, t byte, values int, perSample int) *knode {
 }
 
 func scalLeaf(r *Rng, n int) *knode {
+	if r.Chance(0.04) {
+		// a payload shorter than one value of its type: an empty scale vector, must be an error
+		t := Pick(r, []byte("lLfsSdq"))
+		sz := 1 + r.Intn(typeWidth(t)-1)
+		return &knode{Key: "SCAL", Typ: t, Size: sz, Count: 1, Data: randBytes(r, sz)}
+	}
 	t := Pick(r, []byte("sSlLfsl"))
 	k := numLeaf(r, "SCAL", t, n, 0)
 	if r.Chance(0.9) {
@@ -193,6 +199,27 @@ func runC07(ctx *Ctx) error {
 		}
 		b := d.encode()
 		addGpmfCase(ctx, gpmfInput{hex.EncodeToString(b), 0, "stream"})
+	}
+	// face payloads beyond 64 KiB: record i sits at byte i*size however large that is
+	for _, d := range []struct {
+		def         string
+		size, count int
+	}{{"BBSSSSSBB", 14, 4700 + r.Intn(200)}, {"Lffffffffffffffffffffff", 92, 715 + r.Intn(40)}} {
+		if !ctx.Thorough() && (d.size == 14) != (ctx.Seed%2 == 0) {
+			continue // the quick tier takes one of the two layouts, by seed
+		}
+		data := make([]byte, d.size*d.count)
+		for i := range data {
+			data[i] = byte(i/d.size) ^ byte(i*7)
+			if i%d.size < 2 {
+				data[i] = byte((i / d.size) >> (8 * uint(1-i%d.size))) // the record number in the first two bytes
+			}
+		}
+		st := &knode{Key: "STRM", Typ: 0, Kids: []*knode{
+			{Key: "TYPE", Typ: 'c', Size: 1, Count: len(d.def), Data: []byte(d.def)},
+			{Key: "FACE", Typ: '?', Size: d.size, Count: d.count, Data: data}}}
+		b := (&knode{Key: "DEVC", Typ: 0, Kids: []*knode{st}}).encode()
+		addGpmfCase(ctx, gpmfInput{hex.EncodeToString(b), 0, "big-faces"})
 	}
 	return nil
 }
